@@ -485,6 +485,12 @@ func report(p *Program, prop, tier string, seed int, frs []*FuncResult, extra *E
 				os.WriteFile(path, data, 0o644)
 				fmt.Printf("VIOLATION property=%s replay=%s bounded-check %v: %s\n", prop, path, b["name"], v)
 				rc = 1
+			} else if e, ok := b["error"].(string); ok && e != "" {
+				// the bounded stand-in did not run (build failure, template missing): not a pass
+				fmt.Printf("UNDECIDED property=%s reason=bounded check %v did not run: %s\n", prop, b["name"], firstLines(e, 3))
+				if rc == 0 {
+					rc = 3
+				}
 			}
 		}
 	}
